@@ -5,6 +5,9 @@ import (
 
 	"pgregory.net/rapid"
 
+	api "github.com/yorkie-team/yorkie/api/yorkie/v1"
+	"github.com/yorkie-team/yorkie/client"
+	"github.com/yorkie-team/yorkie/pkg/document"
 	"github.com/yorkie-team/yorkie/pkg/document/time"
 
 	"verifharness/prog"
@@ -15,10 +18,38 @@ import (
 // the log/delivery (C04) and clock (C06) invariants over the recorded history.
 func runWithHistory(p prog.Program, tag string, sessionsRestart bool) (Outcome, *prog.History) {
 	h := prog.NewHistory()
+	gcFree := map[int]bool{} // peers whose current attachment is GC-free (seen in their attach request)
 	res := prog.Run(p, prog.RunOpts{
-		ProjTag: tag,
-		Guard:   guardFor("C01", p),
+		ProjTag:        tag,
+		NonParticipant: func(q *prog.Peer) bool { return gcFree[q.Idx] },
+		MakeGuard: func(r *prog.Runner) prog.Guard {
+			// the contract of a GC-free attachment: the client produces no
+			// tombstones - its edits are confined to counter increases and
+			// primitive root values
+			return func(d *document.Document, s prog.Step) (prog.Step, string) {
+				for _, q := range r.Peers {
+					if q.D == d && gcFree[q.Idx] && s.Op != "cinc" && s.Op != "rootset" && s.Op != "pset" && s.Op != "pclear" {
+						ns := s
+						ns.Op = "cinc"
+						return ns, "gcfree-contract"
+					}
+				}
+				return s, ""
+			}
+		},
+		Guard: guardFor("C01", p),
+		AttachOpts: func(i int) []interface{} {
+			// GC-free attachments (client.WithDisableGC): the client keeps no
+			// version-vector row and is synchronised by lamport only
+			if p.Cfg.Flags["gcfree"]&(1<<uint(i%16)) != 0 {
+				return []interface{}{client.WithDisableGC()}
+			}
+			return nil
+		},
 		OnExchange: func(r *prog.Runner, pe *prog.Peer, ex *world.Exchange) {
+			if m, ok := ex.Req.(*api.AttachDocumentRequest); ok {
+				gcFree[pe.Idx] = m.DisableGc
+			}
 			if h.LogVV == nil {
 				h.LogVV = func(upTo int64) (time.VersionVector, int64) {
 					vv, lamp := time.NewVersionVector(), int64(0)
@@ -124,10 +155,17 @@ func genC06() *rapid.Generator[prog.Program] {
 		Kinds: prog.AllEditKinds, SchedOps: sched, SyncWeight: 8, OfflineBias: true, Snapshots: true,
 	})
 	return rapid.Custom(func(t *rapid.T) prog.Program {
+		var p prog.Program
 		if rapid.IntRange(0, 1).Draw(t, "snap") == 0 {
-			return snap.Draw(t, "p")
+			p = snap.Draw(t, "p")
+		} else {
+			p = change.Draw(t, "p")
 		}
-		return change.Draw(t, "p")
+		// a third of the cases: some attachments (never the first) are GC-free
+		if rapid.IntRange(0, 2).Draw(t, "gcfree") == 0 {
+			p.Cfg.Flags = map[string]int{"gcfree": rapid.IntRange(1, 127).Draw(t, "mask") << 1}
+		}
+		return p
 	})
 }
 
